@@ -277,6 +277,14 @@ def install_patches():
     W.orig['close'] = AsyncSession.close
 
     def mba(self):
+        ctl = W.exec_ctl
+        if ctl is not None and self is ctl.bridge and threading.current_thread() is ctl.caller:
+            # executor-level scenario: the executor may be stopped right behind the k-th activity check of the call
+            ctl.checks += 1
+            r = W.orig['mba'](self)
+            if ctl.stop_after_check == ctl.checks:
+                ctl.stop()
+            return r
         tid = cur_tid()
         if self is W.bridge and tid is not None and tid != 'L':
             caller = sys._getframe(1).f_code.co_name
@@ -880,6 +888,8 @@ class ExecCtl:
         self.cancel_called = False
         self.abandon = False
         self.stopped = False
+        self.checks = 0            # `_must_be_active` calls of the call under test
+        self.stop_after_check = None
         self.log = []
 
     def submit(self, coro, loop):
@@ -995,13 +1005,17 @@ def run_exec(server, sc):
     else:
         bridge = SyncExecutor(f"c20x{sc.get('id')}")
     ctl = W.exec_ctl = ExecCtl(bridge, sc.get('script', []), sc.get('hold', False), bool(sc.get('realtime')))
+    ctl.stop_after_check = sc.get('stop_after_check')
     own = {'exc': None}
     delay = sc.get('delay', 0)
 
     def finish():
+        # how the coroutine / callable itself ends: what "its result" / "the underlying error" of this call is
         if sc.get('exc') is None:
+            own['ended'] = 'returned'
             return 'value'
         own['exc'] = make_exc(sc['exc'])
+        own['ended'] = 'raised:' + type(own['exc']).__name__
         raise own['exc']
 
     async def coro_raise():
@@ -1064,6 +1078,7 @@ def run_exec(server, sc):
     th.join(watchdog)
     res['hung'] = th.is_alive()
     res['polls'], res['polls_after_done'], res['log'] = ctl.polls, ctl.polls_after_done, ctl.log[:40]
+    res['checks'] = ctl.checks
     res['future_done'] = bool(ctl.fut is not None and ctl.fut.done())
     # how the coroutine itself ended (what "its result" / "the underlying error" is), read off the future
     if ctl.fut is None:
@@ -1076,6 +1091,9 @@ def run_exec(server, sc):
         fe = ctl.fut.exception()
         res['future'] = 'returned' if fe is None else 'raised:' + type(fe).__name__
         res['future_timeout'] = isinstance(fe, TimeoutError)
+    if 'ended' in own:          # the coroutine / callable ran to its end under the harness' eyes: independent of any future
+        res['future'] = own['ended']
+        res['future_timeout'] = isinstance(own['exc'], TimeoutError)
     res['cancel_called'] = ctl.cancel_called
     if res['hung']:
         W.exec_hangs += 1
@@ -1247,6 +1265,12 @@ def gen_exec(rng, tier):
                 out.append(sc)
         for api in ('execute', 'execute_sync'):
             out.append({'type': 'exec', 'api': api, 'exc': exc, 'script': [], 'dead': True})
+        # stop() wins the race between the call's activity check and what the call does next (second check / submission)
+        for api, k, tmo in (('execute', 1, None), ('execute', 1, 0), ('execute', 1, 1000.0), ('execute_sync', 1, None), ('execute_sync', 2, None)):
+            sc = {'type': 'exec', 'api': api, 'exc': exc, 'script': [], 'stop_after_check': k}
+            if tmo is not None:
+                sc['timeout'] = tmo
+            out.append(sc)
             out.append({'type': 'exec', 'api': api, 'exc': exc, 'script': ['C'], 'arg': 'bad'})
         # a caller-side timeout that really runs out while the coroutine is pending / that the coroutine beats
         out.append({'type': 'exec', 'api': 'execute', 'exc': exc, 'script': ['e', 'e'], 'hold': True, 'timeout': 0.08, 'realtime': True})
@@ -1281,6 +1305,13 @@ def exec_model_request(sc):
     arg_ok = sc.get('arg') != 'bad'
     dl = 1 if sc.get('timeout') == 0 else 0
     passes, done = [], False
+    k = sc.get('stop_after_check')
+    if k is not None:
+        # the executor dies behind the k-th `_must_be_active`: execute_sync's second check fails (k = 1), or the coroutine is
+        # handed to a dead loop and the first slice finds the thread gone
+        a1 = 0 if (sc['api'] == 'execute_sync' and k == 1) else 1
+        ps = f'((0 0 {dl} 0 0))'
+        return f"sync.exec {sc['api']} 1 1 {EXC_MODEL[sc.get('exc')]} {ps} 0 {a1}"
     for act in list(sc.get('script', [])) + ['real']:
         a = 1 if alive else 0
         if act in ('C', 'real'):
@@ -1321,6 +1352,8 @@ def exec_desc(sc):
         extra.append('coroutine never ends by itself')
     if sc.get('dead'):
         extra.append('executor stopped before the call')
+    if sc.get('stop_after_check') is not None:
+        extra.append(f"executor stopped right behind the call's activity check no. {sc['stop_after_check']}")
     if sc.get('arg') == 'bad':
         extra.append('argument is not a coroutine / callable')
     if sc.get('stop_at') is not None:
@@ -1804,6 +1837,7 @@ def run_execs(ctx, execs, exec_results, have_model):
         ctx.count('exec:' + e['api'] + (':timeout' if 'timeout' in e else ''))
         ctx.count('exec-coroutine:' + ('returns' if e.get('exc') is None else e['exc']))
         ctx.count('exec-phase:' + ('real-time' if e.get('realtime') else ('dead' if e.get('dead') else ('bad-arg' if e.get('arg') == 'bad' else
+                                                                                                    'stop-behind-check' if e.get('stop_after_check') else
                                                                                                     ' '.join(e.get('script', [])) or 'at-once'))))
         ctx.count('exec-outcome:' + ('hang' if r.get('hung') or r.get('process_timeout') else str(r.get('outcome'))))
         found = exec_findings(e, r)
